@@ -77,9 +77,58 @@ func (p c10) arrays(c *core.Ctx) {
 	c.Nontrivial("arrays|" + g.Sc.GraphSig() + tag + fmt.Sprint(size))
 }
 
+// tiedUnnamed: a single-valued point whose best-ranked candidates are several un-named components (a genuine
+// tie) next to named ones and no Primary: whatever the order, it receives one of the tied ones - never a
+// lower-ranked named candidate.
+func (p c10) tiedUnnamed(c *core.Ctx) {
+	g := world.NewG(c.Rng)
+	tied := map[string]bool{}
+	for _, t := range [][]int{{0, 1}, {0, 12}, {1, 3, 12}, {0, 1, 3}}[c.Rng.Intn(4)] {
+		k := g.AddNode(t, "") // un-named IAs of different types, none Primary
+		tied[g.Sc.Nodes[k].DisplayName()] = true
+	}
+	for x, nx := 0, 1+c.Rng.Intn(3); x < nx; x++ {
+		g.AddNode([]int{0, 1, 3, 12}[c.Rng.Intn(4)], g.FreshName(x)) // named IAs
+	}
+	h := g.AddNode([]int{2, 13}[c.Rng.Intn(2)], g.FreshName(9)) // the holder: an IB that is no IA
+	slot := []string{"IA0", "IA1", "Any0"}[c.Rng.Intn(3)]
+	if slot == "Any0" {
+		return // (an any-typed point would also see the holder's own kind; keep the tie pure)
+	}
+	g.SetTag(h, slot, "wire", []string{"", ",required=false"}[c.Rng.Intn(2)])
+	seen := map[string]int{}
+	for o := 0; o < 10; o++ {
+		g.ShuffleOrders()
+		r := world.Start(g.Sc, world.Options{})
+		c.Count("starts", 1)
+		if r.Outcome() != "ok" {
+			c.Fail("", "population with tied un-named candidates did not start: "+core.Short(r.OutcomeDetail(), 300), failDetail(g.Sc, r, nil))
+			return
+		}
+		refs, _ := r.SlotRefs(r.Nodes[h], slot)
+		got := "<nil>"
+		if len(refs) == 1 && !refs[0].Nil {
+			if n, ok := refs[0].Obj.(world.Node); ok {
+				got = n.DisplayName()
+			}
+		}
+		seen[got]++
+		if !tied[got] {
+			c.Fail("", fmt.Sprintf("point %s of %q received %q in run %d; the best-ranked candidates are the un-named %v (a tie among them is the only freedom)", slot, g.Sc.Nodes[h].DisplayName(), got, o, core.SortedKeys(tied)), failDetail(g.Sc, r, map[string]any{"received_so_far": seen}))
+			return
+		}
+	}
+	c.Count("family_tied_unnamed", 1)
+	c.Nontrivial("tiedunnamed|" + g.Sc.GraphSig())
+}
+
 func (p c10) Run(c *core.Ctx) {
 	if c.Index%25 == 13 {
 		p.arrays(c)
+		return
+	}
+	if c.Index%25 == 21 {
+		p.tiedUnnamed(c)
 		return
 	}
 	orders := tierN(c.Tier, 12, 24)
